@@ -32,7 +32,7 @@ func (s Sort) String() string {
 	}
 }
 
-func BV(w int) Sort  { return Sort{K: SBV, W: w} }
+func BV(w int) Sort    { return Sort{K: SBV, W: w} }
 func ArrS(ew int) Sort { return Sort{K: SArr, EW: ew} }
 
 var BoolS = Sort{K: SBool}
